@@ -120,8 +120,11 @@ func argCase(col *Collector, s argSpec, dir string) {
 	trace := newTracePath()
 	defer os.Remove(trace)
 	args := []string{"-c", filepath.Join(dir, "args.yaml"), "--output", "raw"}
-	if s.form == "run" {
+	switch s.form {
+	case "run":
 		args = append(args, "run")
+	case "run task":
+		args = append(args, "run", "task")
 	}
 	args = append(args, s.pre...)
 	args = append(args, "--")
@@ -288,12 +291,12 @@ func runC10(col *Collector, tier string, seed int64) {
 	// all vectors of length <=2 over the alphabet, sampled longer ones
 	as = append(as, argSpec{pre: []string{"echoargs"}, post: nil, form: "root"})
 	for _, w1 := range alphabet {
-		as = append(as, argSpec{pre: []string{"echoargs"}, post: []string{w1}, form: []string{"root", "run"}[rng.Intn(2)]})
+		as = append(as, argSpec{pre: []string{"echoargs"}, post: []string{w1}, form: []string{"root", "run", "run task"}[rng.Intn(3)]})
 		for _, w2 := range alphabet {
 			if tier != "thorough" && rng.Intn(3) != 0 {
 				continue
 			}
-			as = append(as, argSpec{pre: []string{"echoargs"}, post: []string{w1, w2}, form: []string{"root", "run"}[rng.Intn(2)]})
+			as = append(as, argSpec{pre: []string{"echoargs"}, post: []string{w1, w2}, form: []string{"root", "run", "run task"}[rng.Intn(3)]})
 		}
 	}
 	nl := 40
@@ -310,7 +313,7 @@ func runC10(col *Collector, tier string, seed int64) {
 		if rng.Intn(3) == 0 {
 			pre = []string{"t1", "echoargs"}
 		}
-		as = append(as, argSpec{pre: pre, post: post, form: []string{"root", "run"}[rng.Intn(2)]})
+		as = append(as, argSpec{pre: pre, post: post, form: []string{"root", "run", "run task"}[rng.Intn(3)]})
 	}
 	type ud struct {
 		n, pos int
